@@ -191,6 +191,16 @@ def cycleOuts : List LoopOut → List CycleOut
   | _ :: rest => cycleOuts rest
 
 
+/-- kafka_cluster.go:58 `Configure`: the offset, topic and groups-reaper refresh intervals — as set, else
+    10 s, 60 s, and 0 (reaper off) -/
+def settings (offsetRefresh topicRefresh reaperRefresh : Option Int) : Int × Int × Int :=
+  (offsetRefresh.getD 10, topicRefresh.getD 60, reaperRefresh.getD 0)
+
+/-- kafka_cluster.go:86 `Start` followed by `n` offset ticks (no metadata tick yet): the first fetch happens
+    inside `Start`, with the metadata flag set -/
+def startThenTicks (name : String) (envs : List Env) : List LoopOut :=
+  runLoop name CState.init (envs.map Tick.offset)
+
 /-! ### The sarama shim (helpers.BurrowSaramaClient / BurrowSaramaBroker)
 
   `Env` above is what the module is ANSWERED through `helpers.SaramaClient`.  In production that
